@@ -163,6 +163,26 @@ def build_alphabet(lab, ents, root_of):
             add("find_alias_filter:%d" % i, {"f": "find", "finder": "list", "search": "/".join(segs[:-2] + ["*"]) + "?" + q})
             add("Sid_alias_query:%d" % i, {"f": "Sid", "args": ["/".join(segs[:-1]) + "?" + q]})
             add("Sid_alias_query_uri:%d" % i, {"f": "Sid", "args": [model.natural("/".join(segs[:-1])).name + ":" + "/".join(segs[:-1]) + "?" + q]})
+    # the same '/**' path part with different (and multi-valued) filters: what the expansion remembers must not include the filter
+    t1keys = model.natural(f1).keys
+    for i, k in enumerate([k for k in t1keys[4:] if k != t1keys[-1]][:3]):
+        v = segs[t1keys.index(k)]
+        v2 = f2.split("/")[t1keys.index(k)] if len(f2.split("/")) > t1keys.index(k) else v
+        for j, q in enumerate(["%s=%s" % (k, v), "%s=%s,%s" % (k, v, v2 if v2 != v else "zz")]):
+            sq = "/".join(segs[:3]) + "/**?" + q
+            add("unfold_dstar_filter:%d:%d" % (i, j), {"f": "unfold", "search": sq})
+            add("find_dstar_filter:%d:%d" % (i, j), {"f": "find", "finder": "list", "search": sq})
+    # a search Sid whose query adds the NEXT level's key with a symbol: several sibling types fit, the old one does not
+    for i, e in enumerate(typed[2:] + ["/".join(segs[:3] + ["*"] + segs[4:-1])]):
+        te = model.natural(e)
+        if te is None:
+            continue
+        nxt = sorted({t.keys[len(te.keys)] for t in model.templates if len(t.keys) == len(te.keys) + 1 and t.keys[:len(te.keys)] == te.keys})
+        for k in nxt[:1]:
+            sq = "%s?%s=*" % (e, k)
+            add("Sid_next_level_symbol:%d" % i, {"f": "Sid", "args": [sq]}, group="Sid:%s" % sq)
+            add("unfold_next_level_symbol:%d" % i, {"f": "unfold", "search": sq})
+            add("get_with_next_level_symbol:%d" % i, {"f": "sid_op", "sid": e, "op": "get_with_query", "query": "%s=*" % k})
     for i, s in enumerate(searches[:4]):
         add("match:%d" % i, {"f": "match", "sid": f1, "search": s})
         add("match2:%d" % i, {"f": "match", "sid": f2, "search": s})
@@ -220,6 +240,13 @@ def build_alphabet(lab, ents, root_of):
     return calls, new_ents
 
 
+def shuffled(lst):
+    """The list a client hands to FindInList is in no particular order (deterministic here: same in every worker)."""
+    lst = list(lst)
+    random.Random(77).shuffle(lst)
+    return lst
+
+
 class Server:
     def __init__(self, env, opts):
         here = os.path.dirname(os.path.dirname(os.path.abspath(__file__)))
@@ -268,7 +295,7 @@ def worker(args):
 
     env = dict(os.environ)
     max_size = args.get("max_size") or (args.get("replay") or {}).get("max_size") or 0
-    srv = Server(env, {"max_size": max_size, "ctx": {"list": sorted(lab.exists[lab.default_config])}})
+    srv = Server(env, {"max_size": max_size, "ctx": {"list": shuffled(sorted(lab.exists[lab.default_config]))}})
     rng = random.Random(args.get("seed", 0))
     out_fresh = {}
     try:
@@ -321,7 +348,7 @@ def worker(args):
         for n in sample:
             code = ("import json,sys\nsys.path.append(%r)\nimport spil\nfrom lib import c13calls\nc13calls.CTX.update(%r)\n"
                     "print('RESULT'+json.dumps(c13calls.exec_call(%r), default=str))" % (
-                        os.path.dirname(os.path.dirname(os.path.abspath(__file__))), {"list": sorted(lab.exists[lab.default_config])}, byname[n]["spec"]))
+                        os.path.dirname(os.path.dirname(os.path.abspath(__file__))), {"list": shuffled(sorted(lab.exists[lab.default_config]))}, byname[n]["spec"]))
             p = subprocess.run([sys.executable, "-c", code], stdout=subprocess.PIPE, stderr=subprocess.PIPE, timeout=120, env=env)
             lines = [l for l in p.stdout.decode().splitlines() if l.startswith("RESULT")]
             if not lines:
